@@ -1,5 +1,6 @@
 SPECIFICATION Spec
 CONSTANTS
   Menus <- MenusGenQ
+  FixConsistency = TRUE
 INVARIANTS Emit
 CHECK_DEADLOCK FALSE
